@@ -129,6 +129,11 @@ impl HAtomic {
         crate::native::gate_exit();
         r
     }
+    /// Ungated write (harness bookkeeping that is not part of any schedule).
+    #[inline(always)]
+    pub fn store_ungated(&self, v: usize) {
+        self.0.store(v, Ordering::Relaxed)
+    }
     /// Ungated read for oracles evaluated at quiescent points.
     #[inline(always)]
     pub fn peek(&self) -> usize {
